@@ -1,30 +1,81 @@
 //! E1 scenario driver: `scen <scenario> --seed S --shard i --nshards n --cases N --tier T --out F`
-mod common;
 mod acks;
 mod cfilter;
+mod common;
 mod delivery;
 mod durability;
 mod fragdirect;
+mod hostile;
+mod hostilegen;
 mod keeplast;
 mod lifespan;
 mod oversleep;
 
 use common::Shard;
+use std::alloc::{GlobalAlloc, Layout, System};
+use std::sync::atomic::{AtomicU64, Ordering};
 use vcore::Args;
+
+/// Counting allocator: total bytes requested, largest single request; optional hard cap on a
+/// single request (set in the C06 child): exceeding it writes a marker with raw write(2) and aborts.
+struct Counting;
+static TOTAL: AtomicU64 = AtomicU64::new(0);
+static MAX_SINGLE: AtomicU64 = AtomicU64::new(0);
+static CAP: AtomicU64 = AtomicU64::new(0);
+
+#[inline]
+fn note(size: usize) {
+    TOTAL.fetch_add(size as u64, Ordering::Relaxed);
+    MAX_SINGLE.fetch_max(size as u64, Ordering::Relaxed);
+    let cap = CAP.load(Ordering::Relaxed);
+    if cap != 0 && size as u64 > cap {
+        let msg = b"VERIF-ALLOC-CAP single allocation request above cap\n";
+        unsafe {
+            libc_write(2, msg.as_ptr(), msg.len());
+        }
+        std::process::abort();
+    }
+}
+unsafe extern "C" {
+    #[link_name = "write"]
+    fn libc_write(fd: i32, buf: *const u8, n: usize) -> isize;
+}
+unsafe impl GlobalAlloc for Counting {
+    unsafe fn alloc(&self, l: Layout) -> *mut u8 {
+        note(l.size());
+        unsafe { System.alloc(l) }
+    }
+    unsafe fn dealloc(&self, p: *mut u8, l: Layout) {
+        unsafe { System.dealloc(p, l) }
+    }
+    unsafe fn alloc_zeroed(&self, l: Layout) -> *mut u8 {
+        note(l.size());
+        unsafe { System.alloc_zeroed(l) }
+    }
+    unsafe fn realloc(&self, p: *mut u8, l: Layout, new_size: usize) -> *mut u8 {
+        if new_size > l.size() {
+            note(new_size - l.size());
+        }
+        unsafe { System.realloc(p, l, new_size) }
+    }
+}
+#[global_allocator]
+static GLOBAL: Counting = Counting;
+
+fn probe() -> (u64, u64) {
+    (TOTAL.load(Ordering::Relaxed), MAX_SINGLE.load(Ordering::Relaxed))
+}
 
 fn main() {
     let args = Args::parse();
     let scenario = args.pos.first().cloned().unwrap_or_default();
     let shard = Shard::from_args(args);
+    simnet::set_alloc_probe(probe);
     let rep = match scenario.as_str() {
         "c01" => delivery::run(&shard, "C01", delivery::Mode::Reliable),
+        "c02" => delivery::run(&shard, "C02", delivery::Mode::BestEffort),
         "c03" => acks::run(&shard),
         "c04" => durability::run(&shard),
-        "c27" => keeplast::run(&shard),
-        "c29" => lifespan::run(&shard),
-        "c26" => cfilter::run(&shard),
-        "c31" => oversleep::run(&shard),
-        "c02" => delivery::run(&shard, "C02", delivery::Mode::BestEffort),
         "c05" => {
             // (a) direct micro-driver on all cases, (b) end-to-end on `--e2e` cases
             let mut rep = vcore::Report::new("C05");
@@ -38,6 +89,19 @@ fn main() {
             }
             rep
         }
+        "c06" => {
+            if shard.args.has("child") {
+                // a single request above 1 GiB is never attempted
+                CAP.store(1 << 30, Ordering::Relaxed);
+                hostile::run_child(&shard)
+            } else {
+                hostile::run_parent(&shard)
+            }
+        }
+        "c26" => cfilter::run(&shard),
+        "c27" => keeplast::run(&shard),
+        "c29" => lifespan::run(&shard),
+        "c31" => oversleep::run(&shard),
         other => {
             eprintln!("unknown scenario {other}");
             std::process::exit(3);
